@@ -258,8 +258,7 @@ def check_variable(case) -> Result:
                                 q['nterm'] = _mods(na)
                             if ca is not None:
                                 q['cterm'] = _mods(ca)
-                            expected[repr(model.expected(q))] += 1
-        # two different terminal groups / site choices give different forms because tokens are distinct
+                            expected[repr(model.expected(q))] = 1  # a form reachable in two ways is still one form
         if keys != expected:
             missing = sum((expected - keys).values())
             extra = sum((keys - expected).values())
@@ -321,15 +320,27 @@ def case_strategy(variable):
         if draw(st.integers(0, 5)) == 1 and n >= 2:
             pep['intervals'] = [[0, draw(st.integers(1, n)), True, []]]
         counter = [0]
+        # groups are normally made of fresh tokens; now and then a group repeats an earlier group or equals the modifications a
+        # residue / terminus already carries (the same form is then obtainable in two ways and must still be listed once)
+        pool = [[t for t, _m in ms] for _i, ms in pep['internal']] + [[t for t, _m in pep[k]] for k in ('nterm', 'cterm') if pep[k]]
 
         def groups():
             out = []
             for _ in range(draw(st.integers(1, 3 if variable else 1))):
-                g = []
-                for _ in range(draw(st.sampled_from([1, 1, 2]))):
-                    counter[0] += 1
-                    g.append(f'm{counter[0]}')
+                if variable and pool and draw(st.integers(0, 5)) == 1:
+                    g = list(draw(st.sampled_from(pool)))
+                    if g in out:
+                        continue
+                else:
+                    g = []
+                    for _ in range(draw(st.sampled_from([1, 1, 2]))):
+                        counter[0] += 1
+                        g.append(f'm{counter[0]}')
+                    pool.append(list(g))
                 out.append(g)
+            if not out:
+                counter[0] += 1
+                out.append([f'm{counter[0]}'])
             return out
 
         rules = []
